@@ -173,7 +173,7 @@ def with_constructor_variants(prop, tier, res):
     """E3: every way of obtaining a SolutionTracks from every forest (ids computed, valid ids
     given and kept, Tracks -> from_tracks with / without / with partial ids)"""
     from . import smallscope as ss
-    return merge_results(res, run_e3(prop, tier, [("ctor", "constructor variants on all forests", lambda: ss.ctor_cases(tier))],
+    return merge_results(res, run_e3(prop, tier, [("ctor", "constructor variants on all forests; two objects alive in one process (B, A, B again) for all ordered pairs of short sessions", lambda: ss.ctor_cases(tier))],
                                      time_budget=budget(tier, 60, 600)))
 
 
@@ -652,7 +652,7 @@ def run_e3(prop, tier, parts, assumptions=None, time_budget=None):
 
 def check_c17(tier):
     from . import smallscope as ss
-    return run_e3("C17", tier, [("c17", "all ordered lists of distinct column names from the vocabulary", lambda: ss.c17_cases(tier))],
+    return run_e3("C17", tier, [("c17", "all ordered lists of distinct column names from the vocabulary; two builders in a row on one header with the first map edited in place", lambda: ss.c17_cases(tier))],
                   time_budget=budget(tier, 120, 2400),
                   assumptions=["column names from a 24-name vocabulary built from the code's own key/display-name tables (16 names at the larger length bound)"])
 
@@ -660,7 +660,7 @@ def check_c17(tier):
 def check_c18(tier):
     from . import smallscope as ss
     return run_e3("C18", tier, [
-        ("c18p", "all multisets of lattice points (4 frames x 4 positions)", lambda: ss.c18_points_cases(tier)),
+        ("c18p", "all multisets of lattice points (5 frames x 3 positions); two calls in a row on the same array for all ordered pairs of settings", lambda: ss.c18_points_cases(tier)),
         ("c18s", "all label arrays 4x1x3 with globally unique labels", lambda: ss.c18_seg_cases(tier)),
     ], time_budget=budget(tier, 120, 2400), assumptions=["integer lattice coordinates so that 'distance == maximum' is exact"])
 
@@ -669,20 +669,20 @@ def check_c19(tier):
     from . import smallscope as ss
     return run_e3("C19", tier, [
         ("c19u", "ensure_unique_labels: all arrays 4x1x2 over {0,1,2,5}, multiseg 2x2x1x2", lambda: ss.c19_unique_cases(tier)),
-        ("c19r", "relabel_segmentation_with_track_id: all forests x label schemes", lambda: ss.c19_relabel_cases(tier)),
+        ("c19r", "relabel_segmentation_with_track_id: all forests x label schemes (labels reused across frames, non-solution detections with foreign / reused labels)", lambda: ss.c19_relabel_cases(tier)),
     ], time_budget=budget(tier, 400, 2400))
 
 
 def check_c13(tier):
     from . import smallscope as ss
-    return run_e3("C13", tier, [("c13", "all label arrays 2x1x3 x all injective (time,label)->id assignments", lambda: ss.c13_cases(tier))],
+    return run_e3("C13", tier, [("c13", "all label arrays 2x1x3 x all injective (time,label)->id assignments; one builder object for all ordered pairs of small data sets", lambda: ss.c13_cases(tier))],
                   time_budget=budget(tier, 400, 3000))
 
 
 def check_c12(tier):
     from . import io_checks as io
     return run_e3("C12", tier, [
-        ("c12", "tracks_from_df: all forests x id schemes x parent encodings x dims x column namings x extras x position orders, + malformed variants at every row",
+        ("c12", "tracks_from_df: all forests x id schemes x parent encodings x dims x column namings x extras x position orders, + malformed variants at every row; features argument; all ordered pairs of imports sharing the caller's name map",
          lambda: io.c12_cases(tier)),
         ("c12g", "import_from_geff: stores written with geff.write (thinned product of forests x id schemes x dims x namings x position modes)",
          lambda: io.c12_geff_cases(tier)),
@@ -691,7 +691,7 @@ def check_c12(tier):
 
 def check_c15(tier):
     from . import io_checks as io
-    return run_e3("C15", tier, [("c15", "all forests x all node subsets x {CSV, GEFF} x {noseg, seg}", lambda: io.c15_cases(tier))],
+    return run_e3("C15", tier, [("c15", "all forests x all node subsets x {CSV, GEFF} x {noseg, seg}; export / edit / export / undo / export sessions on one object", lambda: io.c15_cases(tier))],
                   time_budget=budget(tier, 200, 3000))
 
 
